@@ -66,6 +66,7 @@ Lemma inv_gen s g t m' k' r' :
   qhead m' = qhead (mem s) -> qtail m' = qtail (mem s) ->
   (forall u, u <> t -> fnode m' u = fnode (mem s) u) ->
   (fnode m' t <> O -> nown g (fnode m' t) = OThr t) ->
+  (forall sd, grole g t = RWait sd Popped -> fnode m' t = fnode (mem s) t) ->
   slot_sched m' = slot_sched (mem s) -> slot_mpmc m' = slot_mpmc (mem s) ->
   slot_mutex m' = slot_mutex (mem s) -> slot_wait m' = slot_wait (mem s) ->
   (forall u, u <> t -> fstate m' u = fstate (mem s) u /\ pend m' u = pend (mem s) u /\
@@ -86,7 +87,7 @@ Lemma inv_gen s g t m' k' r' :
   (is_popper k' -> forall u, u <> t -> ~ is_popper (stk s u)) ->
   InvG (mk s t m' k') (gset_role g t r').
 Proof.
-  intros I Ht Enod Eh Et Ef Eft Es1 Es2 Es3 Es4 Eo Sh Rc W1 W2 W3 W4 W5 Nw Nw' Hh Na Po Pp.
+  intros I Ht Enod Eh Et Ef Eft Efp Es1 Es2 Es3 Es4 Eo Sh Rc W1 W2 W3 W4 W5 Nw Nw' Hh Na Po Pp.
   set (s' := mk s t m' k') in *. set (g' := gset_role g t r') in *.
   assert (RO : forall u, u <> t -> grole g' u = grole g u) by (intros u Hu; cbn; apply upd_other; auto).
   assert (RL : forall u sd w, (w = InL \/ w = Popped) -> (grole g' u = RWait sd w <-> grole g u = RWait sd w)).
@@ -152,17 +153,14 @@ Proof.
     + destruct Ipop as (A & B & f & D & E). eauto 8.
     + destruct Ipop as (A & B & f & D & E). destruct (X _ A) as [-> _]. eauto 8.
     + destruct Ipop as (A & B). split; [auto|]. destruct (Nat.eq_dec f t) as [->|Hf]; [|rewrite Ef; auto].
-      destruct A as (sd & _ & A & _). pose proof (Ishape t) as ShT. rewrite A in ShT.
-      exfalso. inversion ShT; subst; cbn in *; tauto.
+      destruct A as (sd & _ & A & _). rewrite (Efp sd A). exact B.
     + destruct Ipop as (A & B & r & C). split; [auto|].
       destruct (Nat.eq_dec f t) as [->|Hf].
       * exfalso. destruct A as (sd & _ & A & _). apply (Na ltac:(rewrite C; exact Logic.I) sd A).
       * rewrite Ef by auto. split; [auto|]. exists r. rewrite upd_other by auto. exact C.
   - intros u v. destruct (Nat.eq_dec u t) as [->|Hu], (Nat.eq_dec v t) as [->|Hv];
-      rewrite ?upd_same, ?upd_other by auto; auto; intros P1 P2.
-    + exfalso. apply (Pp P1 v Hv P2).
-    + exfalso. apply (Pp P2 u Hu P1).
-    + apply Ione; auto.
+      rewrite ?upd_same, ?upd_other by auto; auto; intros P1 P2;
+      first [exfalso; apply (Pp P1 v Hv P2) | exfalso; apply (Pp P2 u Hu P1) | apply Ione; auto].
 Qed.
 
 Lemma step_eq s t m1 e1 s1 :
